@@ -253,6 +253,10 @@ def guard_all(rng, p, keep=()):
             if r < 0.8:
                 return ("if", ("and", ("nonnil", x), ("opaque",)), s, ("skip",))
             return ("if", ("or", ("not", ("nonnil", x)), ("opaque",)), ("skip",), s)
+        if k == "calli":
+            if s[7] in keep:
+                return s
+            return ("if", ("nonnil", s[2]), s, ("skip",))
         if k == "if":
             return ("if", gc(s[1]), go(s[2]), go(s[3]))
         if k == "while":
@@ -262,6 +266,163 @@ def guard_all(rng, p, keep=()):
     q = dict(p)
     q["funcs"] = [dict(fd, body=go(fd["body"])) for fd in p["funcs"]]
     return q
+
+
+class IGen(Gen):
+    """programs with interfaces (C09): interfaces I_k with methods X<k>x<m> (0 or 2 parameters, some of interface
+    type), implementations S_j (pointer or value receivers, any package), interface-typed locals, parameters and
+    results; conversions at assignments, call arguments (of functions and of interface methods) and returns"""
+
+    def program(self):
+        r = self.rng
+        nf = r.randint(1, 3)
+        npk = r.randint(1, self.max_pkgs)
+        ni = r.randint(1, 2)
+        ifaces = []
+        for k in range(ni):
+            methods = []
+            for m in range(r.randint(1, 2)):
+                if r.random() < 0.4:
+                    pt = []
+                else:
+                    pt = [("I", r.randrange(ni)) if r.random() < 0.35 else "T", "T"]
+                    r.shuffle(pt)
+                methods.append(dict(ptypes=pt))
+            ifaces.append(dict(methods=methods))
+        funcs = []
+        for f in range(nf):
+            pkg = npk - 1 if f == 0 else r.randrange(npk)
+            nparams = 0 if f == 0 else r.choice([0, 1, 2, 2, 3])
+            ptypes = ["T"] * nparams
+            if nparams >= 2:
+                for i in range(nparams):
+                    if r.random() < 0.3:
+                        ptypes[i] = ("I", r.randrange(ni))
+            rtype = ("I", r.randrange(ni)) if (f != 0 and r.random() < 0.2) else "T"
+            funcs.append(dict(nparams=nparams, pkg=pkg, method=False, body=("skip",), ptypes=ptypes, rtype=rtype, ltypes={}, impl=None))
+        impls = []
+        for k in range(ni):
+            for _ in range(r.randint(1, 2)):
+                j = len(impls)
+                ipkg = r.randrange(npk)
+                fs = []
+                for m, md in enumerate(ifaces[k]["methods"]):
+                    fs.append(len(funcs))
+                    funcs.append(dict(nparams=1 + len(md["ptypes"]), pkg=ipkg, method=False, body=("skip",),
+                                      ptypes=[("S", j)] + list(md["ptypes"]), rtype="T", ltypes={}, impl=(j, m)))
+                impls.append(dict(iface=k, funcs=fs, pkg=ipkg, valrecv=r.random() < 0.35))
+        ngl = r.choice([0, 0, 1]) if self.globals_ else 0
+        self.p = dict(funcs=funcs, ginit=[r.random() < 0.5 for _ in range(ngl)], gpkg=[r.randrange(npk) for _ in range(ngl)],
+                      npkgs=npk, ifaces=ifaces, impls=impls)
+        self.next_d = 1
+        self.next_cs = 1
+        for f in range(len(funcs)):
+            self.f = f
+            fd = funcs[f]
+            self.nloc = fd["nparams"] + r.randint(1, 3)
+            for q in range(r.randint(1, 2)):
+                fd["ltypes"][40 + q] = ("I", r.randrange(ni))
+            fd["body"] = self.block(r.randint(2, 6), 0, True)
+        return self.p
+
+    # typed variables
+    def vars_t(self, ty):
+        fd = self.p["funcs"][self.f]
+        k = fd["pkg"]
+        out = []
+        for i in range(self.nloc):
+            t = fd["ptypes"][i] if i < fd["nparams"] else "T"
+            if t == ty:
+                out.append(L(i))
+        for n, t in fd["ltypes"].items():
+            if t == ty:
+                out.append(L(n))
+        if ty == "T":
+            out += [G(g) for g in range(len(self.p["ginit"])) if self.p["gpkg"][g] <= k]
+        return out
+
+    def vars(self):
+        return self.vars_t("T")
+
+    def impls_of(self, ik):
+        k = self.p["funcs"][self.f]["pkg"]
+        return [j for j, im in enumerate(self.p["impls"]) if im["iface"] == ik and im["pkg"] <= k]
+
+    def atom_t(self, ty):
+        if ty == "T":
+            return self.atom()
+        r = self.rng.random()
+        js = self.impls_of(ty[1])
+        vs = self.vars_t(ty)
+        if r < 0.15 or (not js and not vs):
+            return "nil"
+        if js and (r < 0.6 or not vs):
+            return ("conv", ty[1], self.rng.choice(js))
+        return self.rng.choice(vs)
+
+    def callees(self):
+        k = self.p["funcs"][self.f]["pkg"]
+        return [g for g, fd in enumerate(self.p["funcs"]) if fd["pkg"] <= k and g != 0 and not fd.get("impl")]
+
+    def call(self, forward_only):
+        cs = [g for g in self.callees() if (g > self.f) == forward_only]
+        if not cs:
+            return None
+        g = self.rng.choice(cs)
+        fd = self.p["funcs"][g]
+        args = [self.atom_t(t) for t in fd["ptypes"]]
+        xs = self.vars_t(fd["rtype"])
+        x = self.rng.choice(xs) if xs and self.rng.random() < 0.8 else None
+        return ("call", x, g, args, self.cs_id())
+
+    def dispatch(self):
+        fd = self.p["funcs"][self.f]
+        ivars = [(v, t[1]) for v, t in [(L(n), t) for n, t in fd["ltypes"].items()] +
+                 [(L(i), fd["ptypes"][i]) for i in range(fd["nparams"])] if isinstance(t, tuple) and t[0] == "I"]
+        if not ivars:
+            return None
+        xi, ik = self.rng.choice(ivars)
+        m = self.rng.randrange(len(self.p["ifaces"][ik]["methods"]))
+        args = [self.atom_t(t) for t in self.p["ifaces"][ik]["methods"][m]["ptypes"]]
+        x = self.var() if self.rng.random() < 0.8 else None
+        return ("calli", x, xi, ik, m, args, self.cs_id(), self.deref_id())
+
+    def stmt(self, depth, tail):
+        r = self.rng.random()
+        fd = self.p["funcs"][self.f]
+        if r < 0.16:
+            c = self.dispatch()
+            if c is not None:
+                return c
+        if r < 0.30:
+            # assignment to an interface variable: conversion, nil or copy
+            ivs = [(L(n), t) for n, t in fd["ltypes"].items()]
+            if ivs:
+                x, t = self.rng.choice(ivs)
+                return ("assign", x, self.atom_t(t))
+        if tail and r > 0.93 and fd["rtype"] != "T":
+            return ("return", self.atom_t(fd["rtype"]))
+        s = Gen.stmt(self, depth, tail)
+        if s[0] == "return" and fd["rtype"] != "T":
+            return ("return", self.atom_t(fd["rtype"]))
+        if fd.get("impl") and not self.p["impls"][fd["impl"][0]].get("valrecv") and self.rng.random() < 0.15:
+            return ("deref", self.deref_id(), L(0))     # the receiver's field (pointer receivers only)
+        return s
+
+    def var(self):
+        vs = self.vars()
+        fd = self.p["funcs"][self.f]
+        if fd.get("impl"):
+            vs = [v for v in vs if v != L(0)]
+        return self.rng.choice(vs)
+
+    def cond(self, depth=0):
+        c = Gen.cond(self, depth)
+        # nil tests of interface variables too
+        fd = self.p["funcs"][self.f]
+        if c[0] == "nonnil" and fd["ltypes"] and self.rng.random() < 0.3:
+            return ("nonnil", L(self.rng.choice(sorted(fd["ltypes"]))))
+        return c
 
 
 # ---------------------------------------------------------------- building the module
@@ -341,6 +502,12 @@ func main() {
 """
 
 
+def probed(fd):
+    """one-parameter plain functions from *T to *T: candidates for a nonnil->nonnil contract"""
+    return (fd["nparams"] == 1 and not fd.get("method") and not fd.get("impl")
+            and (fd.get("ptypes") or ["T"])[0] == "T" and fd.get("rtype", "T") == "T")
+
+
 def write_module(root, progs, styles):
     """progs: {name: program}; returns ({name: {deref id: (file, line, col)}}, {name: {call site: (file, line, col call, col arg)}})"""
     pos, cpos = {}, {}
@@ -363,7 +530,7 @@ def write_module(root, progs, styles):
         entries.append('\t{"%s", func() { %s; %s.F0() }},' % (name, resets, pr.pkgname(k)))
         # probes of the one-parameter functions: called with a non-nil argument, is the result ever nil?
         for f, fd in enumerate(p["funcs"]):
-            if fd["nparams"] == 1 and not fd.get("method"):
+            if probed(fd):
                 entries.append('\t{"%s#%d", func() { %s; if %s.F%d(&%s.T{}) == nil { rt.Marked = true } }},' % (
                     name, f, resets, pr.pkgname(fd["pkg"]), f, pr.pkgname(0)))
     os.makedirs(os.path.join(root, "cmd", "run"), exist_ok=True)
@@ -407,18 +574,22 @@ def run_real(root, flags=None):
 def enc(site):
     k = site[0]
     if k == "param":
-        return 5 * (site[1] * 64 + site[2])
+        return 7 * (site[1] * 64 + site[2])
     if k == "result":
-        return 5 * site[1] + 1
+        return 7 * site[1] + 1
     if k == "global":
-        return 5 * site[1] + 2
+        return 7 * site[1] + 2
     if k == "callparam":
-        return 5 * (site[2] * 64 + site[1]) + 3
-    return 5 * (site[2] * 64 + site[1]) + 4
+        return 7 * (site[2] * 64 + site[1]) + 3
+    if k == "callresult":
+        return 7 * (site[2] * 64 + site[1]) + 4
+    if k == "iparam":
+        return 7 * ((site[1] * 8 + site[2]) * 8 + site[3]) + 5
+    return 7 * (site[1] * 8 + site[2]) + 6
 
 
 def dec(n):
-    r, q = n % 5, n // 5
+    r, q = n % 7, n // 7
     if r == 0:
         return ("param", q // 64, q % 64)
     if r == 1:
@@ -427,7 +598,11 @@ def dec(n):
         return ("global", q)
     if r == 3:
         return ("callparam", q % 64, q // 64)
-    return ("callresult", q % 64, q // 64)
+    if r == 4:
+        return ("callresult", q % 64, q // 64)
+    if r == 5:
+        return ("iparam", q // 64, (q // 8) % 8, q % 8)
+    return ("iresult", q // 8, q % 8)
 
 
 def parse_trigs(txt):
@@ -465,6 +640,8 @@ def site_pkg(p, s, cspkg=None):
         return p["funcs"][s[1]]["pkg"]
     if s[0] in ("callparam", "callresult"):
         return (cspkg or {}).get(s[2], p["funcs"][s[1]]["pkg"])
+    if s[0] in ("iparam", "iresult"):
+        return 0
     return p["gpkg"][s[1]]
 
 
@@ -520,7 +697,9 @@ def canon_triggers(ts, rep):
         if isinstance(site, tuple) and site and site[0] in ("callparam", "callresult"):
             return (site[0], site[1], rep.get(site[2], site[2]))
         return site
-    return set((cs(a), cs(b), cs(c)) for (a, b, c) in ts)
+    # an edge from a site to itself (an interface value assigned to a variable of the same interface type is treated
+    # as an implementation of the interface by itself) constrains nothing
+    return set((cs(a), cs(b), cs(c)) for (a, b, c) in ts if not (c is None and a == b))
 
 
 def scenario_of(p, m):
@@ -533,8 +712,8 @@ def scenario_of(p, m):
         per[site_pkg(p, dec(t[4]))].append(t)
     for f, ts in enumerate(m["funcs"]):
         per[p["funcs"][f]["pkg"]] += ts
-    for f, ts in enumerate(m["dups"]):
-        per[p["funcs"][f]["pkg"]] += ts
+    for f, ts in enumerate(m["dups"]):      # per caller: duplicated triggers, then per function: affiliation triggers
+        per[p["funcs"][f % len(p["funcs"])]["pkg"]] += ts
     sites = {}
     for ts in per:
         for (_, pk, pp, ck, cc, ctrl) in ts:
@@ -543,7 +722,7 @@ def scenario_of(p, m):
                     sites[ss] = dec(ss)
             if ctrl >= 0:
                 sites[ctrl] = dec(ctrl)
-    site_list = [(n, True, s[0] in ("param", "callparam"), site_pkg(p, s, cspkg)) for n, s in sorted(sites.items())]
+    site_list = [(n, True, s[0] in ("param", "callparam", "iparam"), site_pkg(p, s, cspkg)) for n, s in sorted(sites.items())]
     pkgs = []
     tid = 1000
     for k in range(npk):
@@ -619,26 +798,55 @@ def sink_of(c):
 
 # ---------------------------------------------------------------- real side, abstracted
 
-SITE_RE = [
-    (re.compile(r"ParamAnnotationKey:Param (\d+): '.*' of Function ([FM])(\d+)$"), lambda m, cp: ("param", int(m.group(3)), int(m.group(1)) + (1 if m.group(2) == "M" else 0))),
-    (re.compile(r"RecvAnnotationKey:Receiver of Method M(\d+)$"), lambda m, cp: ("param", int(m.group(1)), 0)),
-    (re.compile(r"RetAnnotationKey:Result 0 of (?:Function|Method) [FM](\d+)$"), lambda m, cp: ("result", int(m.group(1)))),
-    (re.compile(r"GlobalVarAnnotationKey:Global Variable G(\d+)$"), lambda m, cp: ("global", int(m.group(1)))),
-    (re.compile(r"CallSiteParamAnnotationKey:Param 0: '.*' of Function F(\d+) at Location (\S+):(\d+):(\d+)$"),
-     lambda m, cp: ("callparam", int(m.group(1)), cp.get(("arg", int(m.group(1)), m.group(2), int(m.group(3)), int(m.group(4))), "?"))),
-    (re.compile(r"CallSiteRetAnnotationKey:Result 0 of Function F(\d+) at Location (\S+):(\d+):(\d+)$"),
-     lambda m, cp: ("callresult", int(m.group(1)), cp.get(("call", int(m.group(1)), m.group(2), int(m.group(3)), int(m.group(4))), "?"))),
+FN_RE = [
+    (re.compile(r"^\S+\.F(\d+)$"), lambda m, p: ("func", int(m.group(1)), 0)),
+    (re.compile(r"^\(\*\S+\.T\)\.M(\d+)$"), lambda m, p: ("func", int(m.group(1)), 1)),
+    (re.compile(r"^\(\*?\S+\.S(\d+)\)\.X(\d+)x(\d+)$"), lambda m, p: ("func", p["impls"][int(m.group(1))]["funcs"][int(m.group(3))], 1)),
+    (re.compile(r"^\(\S+\.I(\d+)\)\.X(\d+)x(\d+)$"), lambda m, p: ("imeth", int(m.group(1)), int(m.group(3)))),
 ]
 
 
-def parse_site(s, cp):
-    for rx, f in SITE_RE:
-        m = rx.search(s)
+def parse_fn(full, p):
+    for rx, f in FN_RE:
+        m = rx.match(full)
         if m:
-            r = f(m, cp)
-            if "?" in r:
-                return ("?", s)
-            return r
+            try:
+                return f(m, p)
+            except (IndexError, KeyError):
+                return None
+    return None
+
+
+def parse_site(s, cp, p=None):
+    """site key as printed by the driver (`<key type>:<String()>[|<qualified function name>]`) -> abstract site"""
+    head, _, full = s.partition("|")
+    kind, _, desc = head.partition(":")
+    kind = kind.split(".")[-1]
+    if kind == "GlobalVarAnnotationKey":
+        m = re.search(r"Global Variable G(\d+)$", desc)
+        return ("global", int(m.group(1))) if m else ("?", s)
+    fn = parse_fn(full, p or {})
+    if fn is None:
+        return ("?", s)
+    if kind == "ParamAnnotationKey":
+        m = re.match(r"Param (\d+):", desc)
+        if not m:
+            return ("?", s)
+        n = int(m.group(1))
+        return ("iparam", fn[1], fn[2], n) if fn[0] == "imeth" else ("param", fn[1], n + fn[2])
+    if kind == "RecvAnnotationKey":
+        return ("param", fn[1], 0) if fn[0] == "func" else ("?", s)
+    if kind == "RetAnnotationKey":
+        return ("iresult", fn[1], fn[2]) if fn[0] == "imeth" else ("result", fn[1])
+    if kind in ("CallSiteParamAnnotationKey", "CallSiteRetAnnotationKey") and fn[0] == "func":
+        m = re.search(r" at Location (\S+):(\d+):(\d+)$", desc)
+        if not m:
+            return ("?", s)
+        which = "arg" if kind == "CallSiteParamAnnotationKey" else "call"
+        cs = cp.get((which, fn[1], m.group(1), int(m.group(2)), int(m.group(3))))
+        if cs is None:
+            return ("?", s)
+        return ("callparam" if which == "arg" else "callresult", fn[1], cs)
     return ("?", s)
 
 
@@ -652,7 +860,7 @@ def call_index(cpos):
     return idx
 
 
-def real_triggers(res, name, pos, cpos=None):
+def real_triggers(res, name, pos, cpos=None, prog=None):
     """abstract triggers of program `name`: set of (producer, consumer, controller) with producer in {'nil', site},
     consumer in {('deref', id), site}, controller a site or None; never-nil producers are dropped"""
     rev = {}
@@ -669,7 +877,7 @@ def real_triggers(res, name, pos, cpos=None):
         if t["pk"] == "1":
             prod = "nil"
         elif t["pk"] == "2":
-            prod = parse_site(t["ps"], cp)
+            prod = parse_site(t["ps"], cp, prog)
         else:
             odd.append(t); continue
         if t["ck"] == "1":
@@ -678,10 +886,10 @@ def real_triggers(res, name, pos, cpos=None):
                 odd.append(t); continue
             cons = ("deref", d)
         elif t["ck"] == "2":
-            cons = parse_site(t["cs"], cp)
+            cons = parse_site(t["cs"], cp, prog)
         else:
             odd.append(t); continue
-        ctrl = parse_site(t["ctrl"], cp) if t["ctrl"] else None
+        ctrl = parse_site(t["ctrl"], cp, prog) if t["ctrl"] else None
         if prod[0] == "?" or cons[0] == "?" or (ctrl is not None and ctrl[0] == "?"):
             odd.append(t); continue
         out.add((prod, cons, ctrl))
@@ -785,12 +993,15 @@ def gen_cases(rng, n, streams=("random", "guarded", "lone", "lone-simple"), pref
     for i in range(n):
         stream = streams[i % len(streams)]
         simple = stream == "lone-simple"
-        g = Gen(rng, globals_=not simple, max_funcs=3 if simple else 5, simple=simple, methods=not simple)
+        if stream.startswith("iface"):
+            g = IGen(rng, methods=False)
+        else:
+            g = Gen(rng, globals_=not simple, max_funcs=3 if simple else 5, simple=simple, methods=not simple)
         p = g.program()
         lone = None
-        if stream == "guarded":
+        if stream in ("guarded", "iface-guarded"):
             p = guard_all(rng, p)
-        elif stream in ("lone", "lone-simple"):
+        elif stream in ("lone", "lone-simple", "iface-lone"):
             q, d = lone_variant(rng, p)
             if q is None:
                 stream = "random"
@@ -840,7 +1051,7 @@ def _run_suite(ctx, cases, styles_seed):
     for c in cases:
         n = c.name
         m = model[n]
-        rt_, odd = real_triggers(real, n, pos[n], cpos[n])
+        rt_, odd = real_triggers(real, n, pos[n], cpos[n], c.prog)
         rep = stable_groups(c.prog)
         rtc, mtc = canon_triggers(rt_, rep), canon_triggers(model_triggers(m), rep)
         rr, other = real_reports(real, n, pos[n])
@@ -848,7 +1059,7 @@ def _run_suite(ctx, cases, styles_seed):
         fl, flow = flagged[n]
         exec_bad = [(v, sorted(t) if t else None, mr) for v, (t, mr) in enumerate(zip(tp, m["runs"]))
                     if (t is None) != (mr == 0) or (t is not None and mr not in t)]
-        probes = {f: truth_nil_result(truth, n, f) for f, fd in enumerate(c.prog["funcs"]) if fd["nparams"] == 1 and not fd.get("method")}
+        probes = {f: truth_nil_result(truth, n, f) for f, fd in enumerate(c.prog["funcs"]) if probed(fd)}
         obs[n] = dict(model=m, ctr=ctrs[n], probes=probes, real_trig=rtc, model_trig=mtc, odd=odd, reports=rr, other=other,
                       truth=tp, complete=truth_complete(truth, n), flagged=fl, flow=flow, exec_bad=exec_bad,
                       panics=set().union(*[t for t in tp if t]) if any(tp) else set())
